@@ -152,10 +152,8 @@ fn compute_block_facts<'ast, 'arena>(
             for &local in &op.reads {
                 note_use(&mut uses, &defs, local, local_start);
             }
-            for &local in &op.writes {
-                note_def(&mut defs, local, local_start);
-            }
-
+            // What the callees read is read before the statement's own write takes effect
+            // (`x get f()` where `f` reads `x` uses the old `x`), so it is noted first.
             for &callee in &op.direct_callees {
                 let summary = &summaries[callee.0 as usize];
                 if !summary.available {
@@ -166,6 +164,15 @@ fn compute_block_facts<'ast, 'arena>(
                     if facts.locals[local.0 as usize].owner == function {
                         note_use(&mut uses, &defs, local, local_start);
                     }
+                }
+            }
+            for &local in &op.writes {
+                note_def(&mut defs, local, local_start);
+            }
+            for &callee in &op.direct_callees {
+                let summary = &summaries[callee.0 as usize];
+                if !summary.available {
+                    continue;
                 }
                 for &local in &summary.transitive_capture_writes {
                     if facts.locals[local.0 as usize].owner == function {
